@@ -14,6 +14,9 @@
   (`Model/Queue/SpmcSim.lean`). The refinement B → A is *checked on every trace*, not proved.
 -/
 import MayVerif.Proof.Queue.SpmcA.Step
+import MayVerif.Proof.Queue.SpmcA.Order
+import MayVerif.Proof.Queue.SpmcA.PushLog
+import MayVerif.Proof.Queue.Spmc.Steal
 namespace MayVerif.SpmcA
 
 local notation "Tid" => Nat
@@ -71,6 +74,100 @@ theorem spmc_claim_completes (n : Nat) (sched : List (Tid × Env)) (t : Tid) (ht
   refine ⟨_, rfl, ?_⟩
   intro hp
   simp [upd, hp]
+
+/-- **The owner's pops are in push order.** The logical indices handed to the owner (actor 0), in the order
+    in which its operations return them, are strictly increasing, and index `x` holds the `x`-th pushed
+    value (`plog` = the pushed values in push order). -/
+theorem spmc_owner_order (n : Nat) (sched : List (Tid × Env)) :
+    (run (init n) sched).sh.olog.Pairwise (· < ·) ∧
+    ∀ x, x ∈ (run (init n) sched).sh.olog →
+      x < (run (init n) sched).sh.plog.length ∧ (run (init n) sched).sh.slot x = (run (init n) sched).sh.plog[x]? := by
+  have ho := invO_reach n sched
+  have hp := invP_reach n sched
+  refine ⟨ho.op, ?_⟩
+  intro x hx
+  have h3 := ho.ot x hx
+  have hl := hp.pl
+  exact ⟨by split at hl <;> omega, hp.ps x (by split at hl <;> omega)⟩
+
+/-- **A batch is a contiguous run of the push order, in order.** A taker that reads (`tRead`) or returns
+    (`tDone`) the claimed range `[lo, hi)` hands out exactly the pushed values number `lo, lo+1, …, hi-1`, in
+    this order (`batch` is the list it returns). For `steal_into` this is the stolen batch: see
+    `steal_into_returns_newest_requeues_rest` for how it is split. -/
+theorem spmc_batch_order (n : Nat) (sched : List (Tid × Env)) (t : Tid) (lo hi : Nat)
+    (hpc : (run (init n) sched).pcs t = .tRead lo hi) :
+    batch (run (init n) sched).sh lo hi = (List.range (hi - lo)).map (fun j => (run (init n) sched).sh.plog[lo + j]?) ∧
+    hi ≤ (run (init n) sched).sh.plog.length := by
+  have h := inv_reach n sched
+  have hp := invP_reach n sched
+  have h1 := h.rd t
+  simp only [hpc, rdB, hiOf] at h1
+  have hhi := h1 trivial
+  have hl := hp.pl
+  have hlen : hi ≤ (run (init n) sched).sh.plog.length := by split at hl <;> omega
+  refine ⟨?_, hlen⟩
+  simp only [batch]
+  apply List.map_congr_left
+  intro j hj
+  have := List.mem_range.mp hj
+  exact hp.ps (lo + j) (by omega)
+
+end MayVerif.SpmcA
+
+namespace MayVerif.Spmc
+local notation "Tid" => Nat
+local notation "Val" => Nat
+
+/-- **steal_into returns the newest task of the stolen batch and re-queues the rest in order** (level B, the
+    composition `bulk_pop` on the victim + pushes to the thief's own queue that `run_queued_tasks` uses).
+    When the `bulk_pop` part of a `steal_into` of actor `me` hands over the batch `vals` (in batch order, see
+    `spmc_batch_order`), the plan of the rest of the call is: push `vals.dropLast`, front first, to queue `me`,
+    then return `vals.getLast?`; and every later step of the call follows the plan: the slot write of each push
+    takes exactly the front value off the plan and stores it at `tail.index` of that queue's tail block, the
+    publishing store advances `tail.index` by one and continues on the thief's own queue, no step changes the
+    value that will be returned. -/
+theorem steal_into_returns_newest_requeues_rest :
+    (∀ (me : Tid) (l : Loc) (vals : List Val), l.k = .bulk → l.cx = .steal →
+        pending (deliver me l vals) = some vals.dropLast ∧ willReturn (deliver me l vals) = some vals.getLast? ∧
+        (vals.dropLast ≠ [] → pushQ (deliver me l vals) = some me)) ∧
+    (∀ (sh : Sh) (me : Tid) (pc : Pc) (e : Env) (sh' : Sh) (pc' : Pc) (todo : List Val),
+        pending pc = some todo → (∀ r, pc ≠ .rSteal r) → tstep sh me pc e = some (sh', pc') →
+        willReturn pc' = willReturn pc ∧
+        (∀ q v tb k, pc = .pu1 q v tb k →
+            (∃ rest, todo = v :: rest ∧ pending pc' = some rest) ∧ (sh'.blks tb).data ((sh.qs q).tidx % BSZ) = some v) ∧
+        ((∀ q v tb k, pc ≠ .pu1 q v tb k) → pending pc' = some todo) ∧
+        (∀ q pi k, pc = .pu4 q pi k → (sh'.qs q).tidx = pi + 1 ∧ (todo ≠ [] → pushQ pc' = some me))) :=
+  ⟨deliver_steal, requeue_step⟩
+
+/-
+  **spmc_block_safe** (level B) – NOT PROVED; checked executably on every replayed implementation trace.
+  Full statement:
+
+      theorem spmc_block_safe (n : Nat) (sched : List (Tid × Env)) :
+          (run (init n) sched).sh.uaf = false ∧ (run (init n) sched).sh.dfree = false
+
+  (`uaf` is raised by any step that accesses a field or slot of a block after it was freed, `dfree` by a second
+  free; blocks are freed by `tstep` only at `tFree`, which is entered only from the `used.fetch_sub` that brought
+  `used` to 0, and at the end of `Drop`.) The replay machine evaluates both flags after every replayed step
+  (`SpmcReplay.invCheck`), matches every `free` note of the implementation with the model's `tFree`/`d3` step,
+  and a pointer into a freed block in an object position (`…@0` instead of `…@SpmcBlockN`) or a `Freed_` token
+  where the model expects a live block is a divergence. Missing for a proof: the level-B invariant (block chain
+  `start(next b) = start b + B`, `used b = B − #read slots`, head block live), i.e. the proved B → A refinement.
+-/
+
+-- non-vacuity (level B): the owner (actor 0) pushes 5, 6, 7; actor 1 steals: it returns 7 (the newest) and
+-- its own queue then holds 5, 6 (tail.index = 2, slots 0 and 1 of its first block)
+example :
+    let s := run (init 2) ([(0, .start (.push 0 5))] ++ List.replicate 4 (0, .go) ++ [(0, .start (.push 0 6))] ++
+      List.replicate 4 (0, .go) ++ [(0, .start (.push 0 7))] ++ List.replicate 4 (0, .go) ++
+      [(1, .start (.steal 0))] ++ List.replicate 7 (1, .go) ++ List.replicate 3 (1, .go) ++ List.replicate 3 (1, .go))
+    s.pcs 1 = .rSteal (some 7) ∧ (s.sh.qs 1).tidx = 2 ∧ (s.sh.blks 1).data 0 = some 5 ∧ (s.sh.blks 1).data 1 = some 6 ∧
+    s.sh.uaf = false ∧ s.sh.unpub = false := by decide
+
+end MayVerif.Spmc
+
+namespace MayVerif.SpmcA
+local notation "Tid" => Nat
 
 -- non-vacuity --------------------------------------------------------------------------------------------
 -- the owner pushes 7 and 8; a stealer claims index 0 directly, reads it and returns; the owner pops index 1
